@@ -284,6 +284,10 @@ fn plans_c17(tier: Tier) -> Vec<Plan> {
     c4.prelude.push(Act::Connect { c: 2, clean: true, will: 0 });
     c4.prelude.push(Act::Sub { c: 1, f: 0, qos: 1 });
     v.push(Plan { cfg: c4, depth_by_devs: if q { vec![4] } else { vec![6, 5] } });
+    // two groups on one topic filter (each gets every message once) and a plain
+    // subscription of a member to the same topic (that client gets the message once more)
+    let c7 = mk("C17", 7, 3, &["t"], &["$share/g/t", "t", "$share/h/t"]);
+    v.push(Plan { cfg: c7, depth_by_devs: if q { vec![4] } else { vec![6, 5] } });
     // a member that joined twice (two entries in the group's list) before or behind a
     // member that joined once: where the turn stands when the double member leaves
     for (order, strategy) in [(0u8, 0u8), (1, 0), (0, 1)] {
